@@ -138,19 +138,35 @@ PE = {
     "c01_pe_br_lit": "BR #lit: field == literal for every line number, accepted iff 9-bit", "c01_pe_brn_lit": "BRn #lit",
     "c01_pe_ld_lit": "LD r #lit", "c01_pe_ldi_lit": "LDI r #lit", "c01_pe_lea_lit": "LEA r #lit", "c01_pe_st_lit": "ST r #lit",
     "c01_pe_sti_lit": "STI r #lit", "c01_pe_jsr_lit": "JSR #lit (11 bits)",
-    "c01_pe_br_label": "BRzp label: label defined before / after / never / on the statement itself; parse -> backpatch -> emit",
-    "c01_pe_ld_label": "LD r label: idem", "c01_pe_st_label": "ST r label: idem", "c01_pe_lea_label": "LEA r label: idem",
-    "c01_pe_ldi_label": "LDI r label: idem", "c01_pe_sti_label": "STI r label: idem",
-    "c01_pe_jsr_label": "JSR label (11 bits): idem", "c01_pe_call_label": "CALL label (10 bits): idem",
+    "c01_pe_br_label_before": "BRzp label, label defined before the reference: parse -> backpatch -> emit; field = label line - own line - 1; Err iff out of range",
+    "c01_pe_br_label_never": "BRzp label, never defined: backpatch rejects",
+    "c01_pe_ld_label_before": "LD r label, defined before", "c01_pe_lea_label_before": "LEA r label, defined before",
+    "c01_pe_sti_label_before": "STI r label, defined before", "c01_pe_jsr_label_before": "JSR label, defined before",
+    "c01_pe_call_label_before": "CALL label (10 bits), defined before",
+    "c01_pe_br_label_fwd": "BRp label not yet defined: statement carries the label's source text (first half of forward references)",
+    "c01_pe_ld_label_fwd": "LD r fwd-label: idem", "c01_pe_ldi_label_fwd": "LDI: idem", "c01_pe_lea_label_fwd": "LEA: idem",
+    "c01_pe_st_label_fwd": "ST: idem", "c01_pe_sti_label_fwd": "STI: idem", "c01_pe_jsr_label_fwd": "JSR: idem", "c01_pe_call_label_fwd": "CALL: idem",
+    "c01_pe_call_label_never": "CALL label, never defined",
     "c01_pe_trap": "named traps -> vectors x20..x27; TRAP with every 16-bit literal: accepted iff <= xFF",
 }
 C01_QUICK_PE = ["c01_pe_add_imm", "c01_pe_and_reg", "c01_pe_ldr", "c01_pe_str", "c01_pe_not", "c01_pe_jsrr", "c01_pe_push",
-                "c01_pe_br_lit", "c01_pe_ld_lit", "c01_pe_jsr_lit", "c01_pe_br_label", "c01_pe_ld_label", "c01_pe_sti_label",
-                "c01_pe_call_label", "c01_pe_trap"]
+                "c01_pe_br_lit", "c01_pe_ld_lit", "c01_pe_jsr_lit", "c01_pe_br_label_before", "c01_pe_br_label_never",
+                "c01_pe_ld_label_fwd", "c01_pe_call_label_fwd", "c01_pe_call_label_before", "c01_pe_trap"]
 for nm, what in PE.items():
     H("C01", f"parser::verif_h::{nm}", PAR, tier=("quick" if nm in C01_QUICK_PE else "thorough"), covers=1, stubs=PE_STUBS, timeout=1500,
+      allow_unsat=(["w.is_"] if nm.endswith("_never") else []),
       functions=PE_FUNCS, what=what, bounds="one statement; mnemonic fixed per harness; registers, 16-bit literal value, Dec/Hex spelling, "
       "line number (and label line) symbolic; label name 'ab'")
+
+for nm, q in [("br", True), ("ld", True), ("call", True), ("ldi", False), ("lea", False), ("st", False), ("sti", False), ("jsr", False)]:
+    H("C01", f"air::verif_h::c01_backpatch_emit_{nm}", AIR, tier=("quick" if q else "thorough"), covers=2, stubs=[FMT, SYM], timeout=1500,
+      functions=["AsmLine::backpatch", "Label::filled", "AsmLine::emit", "AsmLine::bit_offs"],
+      what=f"{nm.upper()} with a forward reference Unfilled('ab'): real backpatch (label defined / never defined) then emit; field = label line - own line - 1",
+      bounds="label name 'ab'; label line and own line symbolic")
+for nm in ("br", "call"):
+    H("C04", f"air::verif_h::c01_backpatch_emit_{nm}", AIR, covers=2, stubs=[FMT, SYM], timeout=1500,
+      functions=["AsmLine::backpatch", "Label::filled", "AsmLine::emit", "AsmLine::bit_offs"],
+      what=f"{nm.upper()} forward reference: undefined label rejected; distance beyond the field rejected", bounds="label name 'ab'")
 
 # ------------------------------------------------------------------ C04
 prop(
@@ -172,11 +188,12 @@ H("C04", "air::verif_h::c04_bit_offs", AIR, covers=3, stubs=[FMT], functions=["A
 H("C04", "air::verif_h::c04_orig_once", AIR, covers=1, stubs=[FMT], functions=["Air::set_orig", "Air::orig"], what=".orig at most once", bounds="complete")
 H("C04", "symbol::verif_h::c04_label_dup_undef", SYMF, covers=1, stubs=[FMT, SYM], functions=["Label::insert", "Label::filled", "Label::try_fill"],
   what="duplicate label rejected, undefined label rejected, defined label resolves to its line", bounds="names a/A/b; symbolic lines")
-for nm in ("c01_pe_add_imm", "c01_pe_str", "c01_pe_br_lit", "c01_pe_jsr_lit", "c01_pe_trap", "c01_pe_br_label", "c01_pe_call_label"):
+for nm in ("c01_pe_add_imm", "c01_pe_str", "c01_pe_br_lit", "c01_pe_jsr_lit", "c01_pe_trap", "c01_pe_br_label_before", "c01_pe_br_label_never", "c01_pe_call_label_before"):
     H("C04", f"parser::verif_h::{nm}", PAR, covers=1, stubs=PE_STUBS, timeout=1500, functions=PE_FUNCS,
+      allow_unsat=(["w.is_"] if nm.endswith("_never") else []),
       what="parse -> (backpatch) -> emit chain: accepted iff the operand fits its field, no spill into a neighbouring field: " + PE[nm],
       bounds="one statement; operands symbolic")
-for nm in ("c01_pe_and_imm", "c01_pe_ldr", "c01_pe_ld_lit", "c01_pe_st_lit", "c01_pe_jsr_label", "c01_pe_ld_label"):
+for nm in ("c01_pe_and_imm", "c01_pe_ldr", "c01_pe_ld_lit", "c01_pe_st_lit", "c01_pe_jsr_label_before", "c01_pe_ld_label_before"):
     H("C04", f"parser::verif_h::{nm}", PAR, tier="thorough", covers=1, stubs=PE_STUBS, timeout=1500, functions=PE_FUNCS,
       what="parse -> emit chain: " + PE[nm], bounds="one statement; operands symbolic")
 
@@ -232,3 +249,317 @@ NOT_APPLICABLE = {
     "C16": "check under construction in this session", "C17": "check under construction in this session",
     "C18": "check under construction in this session", "C20": "check under construction in this session",
 }
+
+CUTS = "arms excluded by the harness's command group are cut at their callees (print_registers / print_integer / show_assembly_source / print_help_message -> assume(false))"
+NA_FUNCS = ["Debugger::next_action", "Debugger::check_interrupts", "Debugger::run_command", "SignificantInstr::try_from", "RunState::check_pc_bounds",
+            "Breakpoints::get"]
+RUNNING_WHAT = ("one real next_action from an arbitrary running configuration (StepOver{any}/StepInto{any}/Continue/Finish, <=2 breakpoints, any "
+                "marker/counters) x arbitrary machine; only `quit` offered: pauses exactly at armed breakpoint / HALT / PC outside "
+                "[origin,0xFE00) incl. 0xFFFF / step-over return address; otherwise Proceed with the documented successor status; machine, "
+                "breakpoints, program output untouched; marker re-armed; Proceed implies an instruction will execute (ranking lemma)")
+
+prop(
+    "C10",
+    "One-step refinement of the stepping automaton: (a) one real next_action from an arbitrary running configuration and machine, "
+    "(b) one real run_command with an arbitrary resuming command (step, step into k for every k>=1, step out, continue, quit, exit) "
+    "from a paused debugger.  Because the start configuration is arbitrary, agreement on one transition gives agreement on every "
+    "command history by induction; what executes between two calls is C02/C03.  The 0 -> 1 clamp of `step into` is checked on the real "
+    "argument parser (C14 harness c10_count_clamp).",
+    "the composition to whole sessions is an inductive argument, not a solver run; that 'step' over nested/recursive subroutines means "
+    "what the user expects is a reading of help.txt (return address = PC+1 is what is checked).",
+    DBG_INV,
+)
+H("C10", "debugger::verif_h::c10_running_step", DBG, uf=True, covers=5, stubs=DBG_STUBS + [CUTS], timeout=3000, mem_gb=24,
+  functions=NA_FUNCS, what=RUNNING_WHAT, bounds="one call; <= 2 breakpoints")
+H("C10", "debugger::verif_h::c10_resume_commands", DBG, uf=True, covers=4, stubs=DBG_STUBS + [CUTS], timeout=3000, mem_gb=24,
+  functions=["Debugger::run_command", "Debugger::check_halt", "features::stack"],
+  what="one arbitrary resuming command at a paused debugger: status armed as documented, refused on HALT, machine untouched",
+  bounds="one command")
+
+prop(
+    "C09",
+    "Transparency as two solver-decided lemmas: L-frame -- every control step (next_action while running; resuming, inspection and "
+    "breakpoint commands while paused) leaves registers, PC, CC, every memory word (symbolic probe) unchanged and writes nothing to the "
+    "program's output; L-sched -- Proceed is returned only when the plain loop would execute mem[PC] next (PC in user space, not HALT), "
+    "and quit/EOF hands the unchanged machine back to the plain loop (C03).",
+    "the composition to whole runs and exit statuses is an argument; the run() loop's debugger branch itself (too heavy to execute "
+    "symbolically with a debugger attached, DESIGN.md section 3) is covered only through next_action's contract.",
+    DBG_INV,
+)
+H("C09", "debugger::verif_h::c10_running_step", DBG, uf=True, covers=5, stubs=DBG_STUBS + [CUTS], timeout=3000, mem_gb=24,
+  functions=NA_FUNCS, what=RUNNING_WHAT, bounds="one call; <= 2 breakpoints")
+H("C09", "debugger::verif_h::c13_inspection_readonly", DBG, uf=True, covers=3, stubs=DBG_STUBS, timeout=3000, mem_gb=24,
+  functions=["Debugger::run_command", "Debugger::show_assembly_source", "Output::print_registers", "Output::print_integer", "print_help_message"],
+  what="one arbitrary print/registers/echo/help/assembly/break list command: machine, status, breakpoints, program output untouched (minimal mode)",
+  bounds="one command; minimal output mode; empty AST")
+H("C09", "debugger::verif_h::c10_resume_commands", DBG, uf=True, covers=4, stubs=DBG_STUBS + [CUTS], timeout=3000, mem_gb=24, tier="thorough",
+  functions=["Debugger::run_command"], what="resuming commands leave the machine untouched", bounds="one command")
+
+prop(
+    "C11",
+    "Breakpoints::insert/remove/get on sorted duplicate-free lists of 0..3 entries with symbolic addresses (set semantics, sortedness); "
+    "with_orig address arithmetic; break add/remove/list commands through run_command (user-space check, set semantics on a symbolic "
+    "membership probe); firing rule on one real next_action from an arbitrary configuration (pause iff an armed breakpoint is at PC); "
+    "re-arming: the 'just paused here' marker is cleared as soon as an instruction executes, so a breakpoint fires on every return, "
+    "including an immediate one (self-branch).",
+    ".break placement by the parser at text level (token-level harness c11_break_directive covers the address = statement index rule).",
+    DBG_INV,
+)
+for n in (0, 1, 2, 3):
+    H("C11", f"debugger::breakpoint::verif_h::c11_set_len{n}", BPF, covers=2, functions=["Breakpoints::insert", "Breakpoints::remove", "Breakpoints::get"],
+      what=f"insert/remove/get on a sorted duplicate-free list of {n} symbolic addresses: set semantics, stays sorted/unique", bounds=f"list length {n}")
+H("C11", "debugger::breakpoint::verif_h::c11_with_orig", BPF, covers=1, functions=["Breakpoints::with_orig"], what="origin added to every .break index", bounds="2 entries")
+H("C11", "debugger::verif_h::c11_break_commands", DBG, uf=True, covers=3, stubs=DBG_STUBS + [CUTS], timeout=3000, mem_gb=24,
+  functions=["Debugger::run_command", "Breakpoints::insert", "Breakpoints::remove", "Debugger::expect_userspace_address", "Debugger::resolve_location"],
+  what="one arbitrary break add/remove/list: set semantics on user-space targets, refused elsewhere, machine untouched", bounds="one command; <= 2 breakpoints before")
+H("C11", "debugger::verif_h::c10_running_step", DBG, uf=True, covers=5, stubs=DBG_STUBS + [CUTS], timeout=3000, mem_gb=24,
+  functions=NA_FUNCS, what=RUNNING_WHAT, bounds="one call; <= 2 breakpoints")
+H("C11", "debugger::verif_h::c11_marker_cleared_on_execute", DBG, covers=1, stubs=[FMT, SYM], functions=["Debugger::increment_instruction_count"],
+  what="executing an instruction re-arms the breakpoint just paused at", bounds="complete")
+
+prop(
+    "C12",
+    "run_command(Reset) on arbitrary live and saved machines (both 64K memories symbolic): afterwards registers, PC, CC, origin and a "
+    "symbolic probe cell equal the saved ones, and the saved machine is unchanged; for one arbitrary command of any other kind the "
+    "saved machine (registers, PC, CC, probe cell) is unchanged.",
+    "'running on behaves like a fresh run' follows from equality of the complete state plus C03, as an argument; eval receives only the "
+    "live machine by signature.",
+    DBG_INV,
+)
+H("C12", "debugger::verif_h::c12_reset", DBG, uf=True, covers=1, stubs=DBG_STUBS + [CUTS], timeout=3000, mem_gb=24,
+  functions=["Debugger::run_command", "RunState::clone"], what="reset restores every register, PC, CC and memory word (symbolic probe)", bounds="one command")
+H("C12", "debugger::verif_h::c12_initial_state_immutable", DBG, uf=True, covers=2, stubs=DBG_STUBS, timeout=3000, mem_gb=24,
+  functions=["Debugger::run_command"], what="one arbitrary command (all kinds but eval/reset/help/assembly): saved initial machine untouched", bounds="one command")
+
+H("C13", "debugger::verif_h::c11_break_commands", DBG, uf=True, covers=3, stubs=DBG_STUBS + [CUTS], timeout=3000, mem_gb=24,
+  functions=["Debugger::run_command", "Debugger::expect_userspace_address"], what="break add/remove outside user space refused, nothing changes", bounds="one command")
+H("C13", "debugger::verif_h::c13_inspection_readonly", DBG, uf=True, covers=3, stubs=DBG_STUBS, timeout=3000, mem_gb=24,
+  functions=["Debugger::run_command"], what="print/registers/assembly/break list never change machine state", bounds="one command; minimal mode")
+
+prop(
+    "C16",
+    "Ranking lemma, one call deep: the real next_action from an arbitrary running configuration (any PC incl. 0xFFFF, below origin, "
+    ">= 0xFE00, on HALT; any status; <= 2 breakpoints): it either asks for a command (consumes input) or returns Proceed with PC in "
+    "user space on a non-HALT word, i.e. the loop then executes an instruction; a StepInto count never grows.  `step` at PC = 0xFFFF "
+    "(return address PC+1) does not overflow (c10_resume_commands).",
+    "the run() loop's own guards with a debugger attached are read, not executed symbolically (too heavy: DESIGN.md section 3); "
+    "the lemma talks about exactly those guards (HALT at PC, check_pc_bounds).",
+    DBG_INV,
+)
+H("C16", "debugger::verif_h::c10_running_step", DBG, uf=True, covers=5, stubs=DBG_STUBS + [CUTS], timeout=3000, mem_gb=24,
+  functions=NA_FUNCS, what=RUNNING_WHAT, bounds="one call; <= 2 breakpoints")
+H("C16", "debugger::verif_h::c10_resume_commands", DBG, uf=True, covers=4, stubs=DBG_STUBS + [CUTS], timeout=3000, mem_gb=24,
+  functions=["Debugger::run_command"], what="resuming commands at any PC incl. 0xFFFF: no overflow, status armed", bounds="one command")
+
+prop(
+    "C17",
+    "Index/span arithmetic behind the debugger's view: label and PC-offset locations resolve to origin + line - 1 + offset (i32 reference) "
+    "exactly when that is a user-space address; AsmSource maps address -> statement (address - origin) or none; statement spans: first "
+    "token .. end of last consumed operand; directive spans = Span::join.",
+    "that the sliced text 'looks like' the statement in a real file (comments/commas between operands) is implied only as an argument.",
+    DBG_INV,
+)
+H("C17", "debugger::verif_h::c17_resolve_location", DBG, uf=True, covers=2, stubs=DBG_STUBS, timeout=3000, mem_gb=24,
+  functions=["Debugger::resolve_label", "Debugger::resolve_pc_offset", "Debugger::add_address_offset", "resolve_symbol_address"],
+  what="label+offset / PC+offset -> address vs i32 reference, every origin/line/offset/PC", bounds="label name 'ab'")
+H("C17", "symbol::verif_h::c17_span_join", SYMF, covers=1, functions=["Span::join"], what="Span::join covers both spans minimally", bounds="offsets/lengths < 1000")
+for k in ("C09", "C10", "C11", "C12", "C16", "C17"):
+    NOT_APPLICABLE.pop(k, None)
+
+# ------------------------------------------------------------------ C14
+INTF = "src/debugger/command/parse/integer.rs"
+PARSEF = "src/debugger/command/parse/mod.rs"
+STDINF = "src/debugger/command/reader/stdin.rs"
+prop(
+    "C14",
+    "Integer::try_parse / try_parse_signed on every ASCII string of <= 4 bytes against a hand-written reference recogniser of the "
+    "documented grammar; digit accumulation at the i32 boundary (10 decimal / 8 hex symbolic digits); as_u16/as_i16/as_u16_cast for "
+    "every i32; Location / MemoryLocation / Register / PCOffset / Label parsing on every ASCII string <= 4 bytes; the naive type "
+    "pre-check never rejects what the real parser accepts; argument tokenisation on lines <= 5 bytes; the same <= 4-byte script read "
+    "through --command and through stdin yields the same command sequence.",
+    "longer strings; non-ASCII bytes in arguments (covered only in the transport harness with one 2-byte character); invalid UTF-8 on "
+    "stdin (assumed away: `expect(\"uh oh\")` is reachable with it -- observation in DESIGN.md); command-name tables (finite, checked "
+    "by the repository's own tests); effect of the parsed command is C13's domain.",
+    ["command lines contain no ';' or newline (the readers split on them first: c14_transport_equivalence)"],
+)
+H("C14", "debugger::command::parse::integer::verif_h::c14_int_len4", INTF, covers=3, timeout=2400, mem_gb=20,
+  functions=["parse_integer", "take_sign", "take_prefix", "Radix::parse_digit", "Integer::try_parse", "Integer::try_parse_signed"],
+  what="every ASCII string <= 4 bytes x both sign modes vs reference recogniser", bounds="<= 4 ASCII bytes")
+H("C14", "debugger::command::parse::integer::verif_h::c14_int_conversions", INTF, covers=2, functions=["Integer::as_u16", "Integer::as_i16", "Integer::as_u16_cast"],
+  what="conversions for every i32", bounds="complete")
+H("C14", "debugger::command::parse::integer::verif_h::c14_int_decimal_10_digits", INTF, covers=2, timeout=2400, functions=["parse_integer"],
+  what="'#' + 10 symbolic decimal digits: value or too-large, never an overflow", bounds="exactly 10 digits")
+H("C14", "debugger::command::parse::integer::verif_h::c14_int_hex_8_digits", INTF, covers=1, timeout=2400, functions=["parse_integer"],
+  what="'x' + 8 symbolic hex digits", bounds="exactly 8 digits")
+H("C14", "debugger::command::parse::verif_h::c14_location_len4", PARSEF, covers=4, timeout=3000, mem_gb=24,
+  functions=["Location::try_parse", "MemoryLocation::try_parse", "Register::try_parse", "PCOffset::try_parse", "Label::try_parse", "parse_integer"],
+  what="every ASCII string <= 4 bytes as a location vs reference", bounds="<= 4 ASCII bytes")
+H("C14", "debugger::command::parse::verif_h::c14_naive_never_rejects_valid", PARSEF, covers=2, timeout=3000, mem_gb=24,
+  functions=["NaiveType::try_from", "Integer::try_parse", "MemoryLocation::try_parse"],
+  what="naive pre-check vs real parsers on every ASCII string <= 4 bytes", bounds="<= 4 ASCII bytes")
+H("C14", "debugger::command::parse::verif_h::c14_arguments_tokens", PARSEF, covers=1, timeout=2400,
+  functions=["Arguments::next_token_str", "Arguments::next_argument_str", "Arguments::arg_count"], what="tokenisation of every line <= 5 ASCII bytes", bounds="<= 5 bytes")
+H("C14", "debugger::command::parse::verif_h::c10_count_clamp", PARSEF, covers=2, stubs=[FMT], functions=["Arguments::next_positive_integer_or_default"],
+  what="step into count: default 1, 0 -> 1", bounds="one decimal digit")
+H("C10", "debugger::command::parse::verif_h::c10_count_clamp", PARSEF, covers=2, stubs=[FMT], functions=["Arguments::next_positive_integer_or_default"],
+  what="step into count: default 1, 0 -> 1", bounds="one decimal digit")
+H("C14", "debugger::command::reader::stdin::verif_h::c14_transport_equivalence", STDINF, covers=2, timeout=3000, mem_gb=24,
+  stubs=["Stdin::read_byte -> next byte of the harness's byte queue (the OS read is the only thing replaced)"],
+  functions=["Argument::read", "Stdin::read", "Stdin::read_char", "read_char_from_bytes", "Utf8Position::from"],
+  what="same <= 4-byte script via --command and via stdin: same command strings, same end", bounds="<= 4 bytes, valid UTF-8 (ASCII + one 2-byte char)")
+
+# ------------------------------------------------------------------ C20
+TERMF = "src/debugger/command/reader/terminal.rs"
+prop(
+    "C20",
+    "Editor kernels (find_word_next, find_word_back, count_chars_bytes, insert_char_index, remove_char_index) on every string of "
+    "<= 2 characters (3 in thorough) over {a, space, +, e-acute, grinning face} (enumerated concretely inside the harness so UTF-8 "
+    "decoding constant-folds) x every cursor in [0, #chars] x both word modes (symbolic, solver-decided): results are character "
+    "indexes within the line and equal a reference editor on a char vector; get_next_command splits a submitted line at ';'.",
+    "handle_key's own glue (cursor +-1, history index arithmetic) is read, not executed symbolically (a heap String with a symbolic key "
+    "did not finish, DESIGN.md section 3); longer lines; history files; terminal rendering.",
+    ["char::is_whitespace / is_alphanumeric replaced by their exact answers on the 5-character alphabet"],
+)
+for n in (0, 1, 2):
+    H("C20", f"debugger::command::reader::terminal::verif_h::c20_kernels_len{n}", TERMF, covers=2, timeout=3000, mem_gb=24,
+      stubs=["char::is_whitespace / char::is_alphanumeric -> exact answers on the alphabet"],
+      functions=["find_word_next", "find_word_back", "count_chars_bytes", "insert_char_index", "remove_char_index"],
+      what=f"all {5**n} strings of {n} characters x every cursor x both word modes x every inserted character", bounds=f"{n} characters")
+H("C20", "debugger::command::reader::terminal::verif_h::c20_kernels_len3", TERMF, tier="thorough", covers=2, timeout=6000, mem_gb=30,
+  stubs=["char::is_whitespace / char::is_alphanumeric -> exact answers on the alphabet"],
+  functions=["find_word_next", "find_word_back", "count_chars_bytes", "insert_char_index", "remove_char_index"],
+  what="all 125 strings of 3 characters x every cursor x both word modes", bounds="3 characters")
+H("C20", "debugger::command::reader::terminal::verif_h::c20_next_command_split", TERMF, covers=1, timeout=2400, functions=["Terminal::get_next_command"],
+  what="submitted line of <= 3 bytes over {a, ';', space} split at ';'", bounds="<= 3 bytes")
+for k in ("C14", "C20"):
+    NOT_APPLICABLE.pop(k, None)
+
+# ------------------------------------------------------------------ C15
+EVALF = "src/debugger/eval.rs"
+EVAL_STUBS = [FMT, SYM, PRINT, "AsmParser::new_simple -> parser over the harness's token vector (lexing is C05)",
+              "RunState::execute -> recorder (word, PC); what the word does is C02", EXIT,
+              "error::parse_generic_unexpected / parse_lit_range / parse_eof -> contract stubs"]
+prop(
+    "C15",
+    "The real eval_inner on token vectors (mnemonic fixed per harness, operands symbolic) from an arbitrary machine at an arbitrary PC: "
+    "exactly one execute of exactly the ISA encoding of the given instruction on the untouched machine; a label operand is encoded "
+    "relative to the *current PC* (target = origin + label line - 1), refused when out of the field's reach; BR*, RTI, HALT, unknown "
+    "trap vectors, missing / surplus / wrong-kind operands and non-instructions are refused with no effect and no exit/panic.",
+    "literal PC offsets and JSR/JSRR/CALL link values (left unspecified by the property); the text -> token step (C05); the effect of "
+    "the executed word (C02).",
+    ["label line L >= 1 and origin + L - 1 <= 0xFFFF"],
+)
+for nm, what, q in [
+    ("c15_eval_add", "eval ADD r,r,(r|imm): executed once as its encoding; out-of-range imm5 refused", True),
+    ("c15_eval_ldr", "eval LDR r,r,off6", False),
+    ("c15_eval_ld_label", "eval LD r,label at any PC: field = label address - PC; refused beyond 9 bits", True),
+    ("c15_eval_st_label", "eval ST r,label at any PC", False),
+    ("c15_eval_lea_label", "eval LEA r,label at any PC", False),
+    ("c15_eval_refused_br", "eval BR* (literal or label operand): refused, nothing executes", True),
+    ("c15_eval_traps_and_rti", "eval RTI / HALT / TRAP v (every 16-bit v) / named traps: only vectors x20-x27 except HALT execute", True),
+    ("c15_eval_malformed_not", "eval NOT with 0..3 operand tokens of any kind: executes iff exactly two registers; surplus operands refused", True),
+    ("c15_eval_not_an_instruction", "eval of a non-instruction token / empty text: refused", False),
+]:
+    H("C15", f"debugger::eval::verif_h::{nm}", EVALF, tier=("quick" if q else "thorough"), uf=True, covers=2, stubs=EVAL_STUBS, timeout=3000, mem_gb=24,
+      functions=["eval_inner", "AsmParser::parse_simple", "AsmParser::parse_instr", "AsmParser::parse_trap", "AsmLine::backpatch", "AsmLine::emit", "AsmLine::bit_offs"],
+      what=what, bounds="one eval; label name 'ab'")
+NOT_APPLICABLE.pop("C15", None)
+
+TRAP_STUBS = [FMT, "runtime::read_char -> next element of the harness's input queue (ASCII or U+FFFD), exit(1) at end of input",
+              "Output::print_fmt -> capture sink (program output as code points)", EXIT]
+for nm, what, props, nc in [
+    ("c03_trap_getc_in_out", "GETC / OUT / IN: register frame, exactly one input character consumed, exactly the documented character printed", ["C03", "C02"], 3),
+    ("c03_trap_input_eof", "GETC / IN at end of input: exit(1)", ["C03"], 1),
+    ("c03_trap_halt_putn", "HALT: PC = 0xFFFF only; PUTN: R0 as signed decimal (length, sign, first and last digit)", ["C03", "C02"], 2),
+    ("c03_trap_puts", "PUTS: characters up to the first zero word", ["C03"], 2),
+    ("c03_trap_putsp", "PUTSP: bytes up to the first zero byte", ["C03"], 1),
+    ("c02_trap_unknown_vector", "every trap vector outside x20..x27: exit(0xEE), nothing executed", ["C02", "C03"], 1),
+    ("c03_trap_reg", "REG: prints, machine untouched", ["C03"], 1),
+]:
+    for pp in props:
+        H(pp, f"runtime::verif_h::{nm}", RT, uf=True, covers=nc, stubs=TRAP_STUBS, timeout=2400, mem_gb=20,
+          allow_unsat=(["in-bounds instruction"] if False else []),
+          functions=["RunState::trap", "Output::print", "Output::print_decimal", "Output::print_registers"], what=what,
+          bounds="strings <= 3 words (PUTS) / 2 words (PUTSP), not running through 0xFFFF; input queue <= 2 characters")
+
+# ------------------------------------------------------------------ C05 / C18 / more C01, C11, C17
+ASMF = "src/debugger/asm.rs"
+FEATF = "src/features.rs"
+KW = "Cursor::check_instruction / check_trap / check_directive -> any result they can produce (over-approximation; tables checked on concrete keywords)"
+prop(
+    "C05",
+    "Assume-guarantee decomposition, bounded.  Lexer: one harness per arm of advance_token on every valid-UTF-8 text of <= 3 bytes "
+    "starting with that arm's characters (plus 2- and 4-byte first characters): no panic/overflow, token and diagnostic spans inside "
+    "the source.  Parser: parse_instr (per mnemonic) and parse_trap on <= 3 operand tokens of any kind (Byte, Breakpoint, .orig, "
+    "strings ...), any line number; parse()'s own loop on <= 3 tokens from any starting line (so statement 65,535 is decided without "
+    "unrolling) with parse_instr/parse_trap replaced by their contract.  Display for TokenKind on every kind.  bit_offs at the i16 "
+    "extremes (C04).",
+    "miette's rendering; texts longer than 3 bytes as text (the token level takes over); preprocess()'s expansion loops; 'never loops "
+    "forever' is only the unwinding assertion within these bounds.",
+    ["token spans lie inside the source on ASCII text (what the lexer harnesses establish)",
+     "Dir tokens other than .orig do not survive preprocessing"],
+)
+for arm in ("hex", "zero", "dec", "dir", "str", "reg", "ident", "comment_ws", "unknown"):
+    H("C05", f"lexer::verif_h::c05_lex_{arm}_arm", LEX, covers=2, stubs=[FMT, KW], timeout=2400, mem_gb=20,
+      functions=["Cursor::advance_token", "Cursor::hex", "Cursor::dec", "Cursor::str", "Cursor::dir", "Cursor::ident", "Cursor::take_while", "Cursor::get_range",
+                 "error::lex_*"],
+      what=f"lexer arm '{arm}': first character of the arm + every valid-UTF-8 continuation of <= 2 bytes; first and second token",
+      bounds="text <= 3 bytes")
+H("C05", "lexer::verif_h::c05_lex_multibyte_first", LEX, covers=1, stubs=[FMT, KW], timeout=2400, functions=["Cursor::advance_token", "error::lex_unknown"],
+  what="2-byte / 4-byte first character, optionally followed by any ASCII byte: diagnostic, spans inside the source", bounds="<= 5 bytes")
+H("C05", "lexer::verif_h::c05_display_all_kinds", LEX, covers=2, functions=["<TokenKind as Display>::fmt"],
+  what="Display for every token kind a preprocessed stream can contain (incl. Byte, Breakpoint)", bounds="complete")
+for nm, q in [("add", True), ("ldr", False), ("not", True), ("br", True), ("ld", False), ("jsr", False), ("call", True), ("jmp", False)]:
+    H("C05", f"parser::verif_h::c05_parse_total_{nm}", PAR, tier=("quick" if q else "thorough"), covers=2, stubs=PE_STUBS, timeout=3000, mem_gb=24,
+      allow_unsat=["TokenKind::Byte"] if False else [],
+      functions=["AsmParser::parse_instr", "AsmParser::expect*"], what=f"parse_instr({nm.upper()}) on operand tokens of any kind and count: total",
+      bounds="<= 3 operand tokens; 8-byte ASCII source")
+H("C05", "parser::verif_h::c05_parse_total_trap", PAR, covers=2, stubs=PE_STUBS, timeout=3000, mem_gb=24, functions=["AsmParser::parse_trap"],
+  what="parse_trap (any trap kind) on <= 1 token of any kind", bounds="<= 1 operand token")
+H("C05", "parser::verif_h::c05_parse_loop_total", PAR, covers=3, timeout=3000, mem_gb=24,
+  stubs=PE_STUBS + ["AsmParser::parse_instr / parse_trap -> any result (their contract)", "error::parse_duplicate_label -> contract"],
+  functions=["AsmParser::parse", "AsmParser::optional_label", "Air::add_stmt", "Air::set_orig", "Breakpoints::insert", "Label::insert"],
+  what="parse() on <= 3 tokens of any kind from any starting line number: Ok or Err, never a panic (line counter, assert on .orig, span arithmetic)",
+  bounds="<= 3 tokens")
+H("C05", "air::verif_h::c04_bit_offs", AIR, covers=3, stubs=[FMT], functions=["AsmLine::bit_offs"], what="bit_offs total at the i16 extremes", bounds="complete")
+NOT_APPLICABLE.pop("C05", None)
+
+prop(
+    "C18",
+    "Lexer gate: the four stack mnemonics classify as instructions iff the flag is on, are refused with a diagnostic otherwise, and "
+    "every other keyword classifies identically for both flag values -- and with the feature cell uninitialised (any read of the flag "
+    "panics), which shows those paths never consult it.  VM gate: opcode 0xD with the flag off reaches exit(1) before anything "
+    "executes; with it on executes per the documented encoding (C02).  `step out` follows the flag as implemented.  Features::from_str "
+    "on the documented spellings.",
+    "the -f command-line plumbing in main.rs; letter case of the mnemonics is folded before the classifier (to_ascii_lowercase in "
+    "ident(): read, not executed on symbolic text).",
+    [],
+)
+H("C18", "lexer::verif_h::c18_gate_lexer", LEX, covers=2, stubs=[FMT], functions=["Cursor::check_instruction", "features::stack", "error::lex_stack_extension_not_enabled"],
+  what="push/pop/call/rets gated by the flag (both values); other keywords unaffected", bounds="concrete keywords, symbolic flag")
+H("C18", "lexer::verif_h::c18_flag_not_consulted_elsewhere", LEX, covers=1, stubs=[FMT], functions=["Cursor::check_instruction", "Cursor::check_trap"],
+  what="feature cell uninitialised: non-stack keywords classify without consulting the flag", bounds="concrete keywords")
+H("C18", "runtime::verif_h::c02_stack_off_exits", RT, uf=True, stubs=[EXIT], covers=0, functions=["RunState::stack", "features::stack"],
+  what="opcode 0xD with the extension off: exit(1) before anything executes", bounds="complete")
+H("C18", "runtime::verif_h::c02_stack_off_exit_reached", RT, uf=True, stubs=[EXIT], covers=1, functions=["RunState::stack"], what="reachability twin: exit(1) is reached", bounds="complete")
+H("C18", "runtime::verif_h::c02_stack_on", RT, uf=True, covers=2, timeout=900, functions=["RunState::stack", "RunState::push_val", "RunState::pop_val"],
+  what="flag on: every 0xD word executes as PUSH/POP/CALL/RETS", bounds="one instruction")
+H("C18", "runtime::verif_h::c02_add", RT, uf=True, covers=2, timeout=900, functions=["RunState::add"],
+  what="feature cell uninitialised: a non-0xD handler runs without consulting the flag (one representative; all C02 op harnesses run that way)", bounds="one instruction")
+H("C18", "features::verif_h::c18_fromstr_fixed", FEATF, covers=1, stubs=[FMT], functions=["Features::from_str"], what="'' / 'stack' / 'stack,stack' / unknown word", bounds="4 concrete strings")
+H("C18", "debugger::verif_h::c10_resume_commands", DBG, uf=True, covers=4, stubs=DBG_STUBS + [CUTS], timeout=3000, mem_gb=24, tier="thorough",
+  functions=["Debugger::run_command", "features::stack"], what="`step out` availability follows the flag", bounds="one command")
+NOT_APPLICABLE.pop("C18", None)
+
+H("C01", "lexer::verif_h::c01_keywords_instructions", LEX, covers=1, stubs=[FMT], timeout=2400,
+  functions=["Cursor::check_instruction", "Cursor::check_trap", "Cursor::check_directive"], what="all 45 keywords (lowercase) -> documented token kinds; non-keywords -> Label", bounds="concrete keywords")
+H("C01", "lexer::verif_h::c01_literal_values", LEX, covers=2, stubs=[FMT, KW], timeout=2400, mem_gb=20, functions=["Cursor::advance_token", "Cursor::hex", "Cursor::dec"],
+  what="#dec / xHEX literals, optional '-', 1..3 symbolic digits: token value == numeric value (two's complement), token spans the literal", bounds="<= 3 digits")
+H("C04", "lexer::verif_h::c01_literal_values", LEX, tier="thorough", covers=2, stubs=[FMT, KW], timeout=2400, mem_gb=20, functions=["Cursor::hex", "Cursor::dec"],
+  what="literal values", bounds="<= 3 digits")
+H("C17", "parser::verif_h::c17_statement_span_and_break", PAR, covers=2, stubs=PE_STUBS, timeout=2400, mem_gb=20,
+  functions=["AsmParser::parse", "AsmParser::expect_reg", "Air::add_stmt"], what="statement span = mnemonic .. last consumed operand, for arbitrary increasing token spans; operand-less statement", bounds="one statement")
+H("C11", "parser::verif_h::c17_statement_span_and_break", PAR, covers=2, stubs=PE_STUBS, timeout=2400, mem_gb=20,
+  functions=["AsmParser::parse", "Breakpoints::insert"], what=".break marks the next statement's index, occupies no word, is flagged predefined", bounds="one statement")
+H("C17", "debugger::asm::verif_h::c17_source_statement_lookup", ASMF, covers=3, timeout=2400, functions=["AsmSource::get_source_statement", "AsmSource::get_single_line"],
+  what="address -> statement (address - origin) or nothing; shown text = statement span", bounds="<= 3 statements; 8-byte source")
